@@ -548,10 +548,13 @@ func genC07(g *Gen) {
 			for i := 0; i < n+20; i++ {
 				ops = append(ops, "add "+itoa(i)+" "+itoa(i))
 			}
-			for i := 0; i < n-n/4+5; i++ {
+			for i := 0; i < n+20-n/8; i++ { // down to an eighth of the peak population
 				ops = append(ops, popf())
 				if sparse(i, n+20-i, n) {
 					ops = append(ops, "count", "getyoungest")
+				}
+				if left := n + 20 - i - 1; left == n/2 || left == n/4+6 || left == n/4-1 || left == n/5 {
+					ops = append(ops, "count", "get 0", "get 1", "getyoungest")
 				}
 			}
 			ops = append(ops, "count", "get 0", "get 1", "get 2", "getoldest", "add 0 7", "count", "removeoldest", "removeoldest", "count")
